@@ -9,6 +9,7 @@ from pyvc.api import contract, lemma, Loop, native
 from specs.errspec import LARKP, RENDER
 import specs.errspec  # noqa: F401
 import contracts.c09  # noqa: F401  (Procedure.__emit carries the C07 normalisation clause)
+import contracts.c14  # noqa: F401  (SymbolDB.unload raises nothing: the interactive loop unloads the main module on every prompt)
 
 LEVEL = 'proof'
 
